@@ -5,8 +5,15 @@ C10 - drange enumerates exactly t0, t0+bump, ... up to t1 for every kind of bump
 The oracle iterates a reference step function written with datetime arithmetic only (no dateutil, no pyg_base):
 ints / timedeltas / fixed units add a timedelta, month-based units move the month keeping the day (day <= 28 here),
 business days are listed by walking one day at a time.
+
+Sub-checks: `drange` (one call per case) and `session` (2-4 calls on the same endpoint / bump / Calendar objects, each judged by the single-call oracle).
+Bug classes 11-20 of the builder brief: 11 -> `session`; 13 -> raw types of the endpoints and of the bump; 14 -> one object for both endpoints;
+17 -> Calendar built with its optional parameters; 19 -> start days on month / year boundaries for the bumps that are not month based, b bumps from a
+time of day; 20 -> compound tenors with the small part first. 12, 15, 16, 18 do not apply (no containers, tables, user functions or vector arguments).
 """
 import datetime
+import json
+import os
 import re
 
 from hypothesis import strategies as st
@@ -15,12 +22,21 @@ from pv.core import Sub, Violation, call_fuel, check, short, OutOfFuel
 
 ASSUMPTIONS = [
     'second resolution for string / int bumps (rrule discards microseconds), millisecond steps for timedelta bumps (a plain loop); start dates 1950-2050; spans up to ~3 years but at most ~400 list elements',
-    'endpoints a whole number of days apart for business-day bumps (int / timedelta / d / w bumps: in a third of the cases a whole number of days plus 1 h / 12 h / 23:59:59, or less than a day); midnight and day-of-month <= 28 for m/q/y parts (the 28th, the 1st, February, December and January over-weighted); intraday endpoints with timedelta and h/n/s bumps',
+    'endpoints a whole number of days apart for business-day bumps (at midnight or at 02:00; int / timedelta / d / w bumps: in a third of the cases a whole number of days plus 1 h / 12 h / 23:59:59, or less than a day); '
+    'midnight and day-of-month <= 28 for m/q/y parts (the 28th, the 1st, February, December and January over-weighted); intraday endpoints with timedelta and h/n/s bumps; '
+    'for the bumps that are not month based the start is, in 40% of the cases, 28 / 29 Feb, a 30th, a 31st, 31 Dec or 1 Jan',
     'a zero business-day bump ("0b") is outside the claim (it lists every weekday; the statement only speaks of bumps pointing away from t1)',
-    'compound tenors: all parts of one sign, or a dominant first part (>= 4 weeks) followed by a small correction (<= 7 days) so the step is strictly monotone; '
+    'compound tenors: all parts of one sign (long unit first or short unit first), or a dominant part (>= 4 weeks) with a small correction (<= 7 days) of the other sign before or after it, so the step is strictly monotone; '
     'business-day parts appear only in single-period strings',
     'wrong-direction / zero bumps must raise ValueError; nothing else may raise; termination is decided by fuel (400 calls per expected element + 60000)',
-    'intraday spans shorter than a day with a wrong-direction h/n/s string bump are excluded only where (t1-t0).days == 0 cannot tell the direction: they must still not hang',
+    'raw types: the endpoints are datetime.datetime and, in a quarter of the cases, datetime.date / numpy datetime64[D, s, us, ns] / pd.Timestamp for the same instant (independently for t0 and t1; '
+    'the result is compared by ==, a Timestamp equals its datetime); int bumps also as numpy int64, timedelta bumps also as pd.Timedelta. numpy timedelta64 and float bumps are outside: '
+    'they are not bumps for the library (is_bump) and drange has no branch for them; bump=None (the default) is not among the bumps the statement lists',
+    'Calendar.drange (non-b bumps only, as in the statement) is called on Calendar("pv") and, half of the time, on a Calendar built with holidays inside the span, another weekend, a 7-day or 800-day t0..t1 window and adj: '
+    'none of them may change a non-b range. Calendars are constructed directly, never registered in the module-level `calendars`',
+    'session: the follow-up calls are the same call again / t1 twice or half as far (whole days kept) / endpoints swapped with the bump negated / the bump negated / a longer stride, on the SAME objects; '
+    'a swap that would start a month-based bump after the 28th is replaced by a repeat. State kept by the library across CASES of one process also reaches the checks: a replay of a shrunk session '
+    'may then need the earlier calls (the message lists the calls of the session made so far)',
 ]
 
 DAY = datetime.timedelta(1)
@@ -96,6 +112,12 @@ def ref_weekdays(t0, t1, k):
 # ----------------------------------------------------------------------------- generator
 
 _ord = st.integers(datetime.date(1950, 1, 1).toordinal(), datetime.date(2050, 1, 1).toordinal())
+_TOKEN_I = re.compile(r'([-+]?)(\d+)([dbwmqyhnsDBWMQYHNS])')
+_MONTH_FORMS = ('md', 'ym', 'ymd', 'm-d', 'y-m', 'dm', 'my', '-dm')
+_SMALL_FIRST = ('dm', 'my', 'hd', 'dw', '-dm', '-dw')
+_BOUNDARY_KINDS = ('int', 'td_days', 'td_intraday', 'd', 'w', 'b', 'hns')
+_KINDS = ['int', 'int', 'td_days', 'td_intraday', 'td_subsecond', 'd', 'w', 'b', 'b', 'month', 'month', 'hns', 'compound', 'compound', 'equal']
+_RAW_TAGS = ['dt', 'date', 'np_D', 'np_s', 'np_us', 'np_ns', 'ts']
 
 
 def _frac(draw, days, nel):
@@ -124,9 +146,43 @@ def _month_end_ordinal(draw, o):
     return d.replace(day=min(d.day, 28)).toordinal()
 
 
+def _boundary_ordinal(draw, o):
+    """start days on a month / year boundary for the bumps that are NOT month based (class 19): 28 and 29 Feb, the 30th, the 31st, 31 Dec, 1 Jan"""
+    how = draw(st.sampled_from(['asis'] * 9 + ['feb28', 'feb29', 'd30', 'd31', 'dec31', 'jan1']))
+    d = datetime.date.fromordinal(o)
+    if how == 'feb28':
+        d = d.replace(month=2, day=28)
+    elif how == 'feb29':
+        d = datetime.date(max(1952, d.year - d.year % 4), 2, 29)
+    elif how == 'd30':
+        d = d.replace(month=3 if d.month == 2 else d.month, day=30)
+    elif how == 'd31':
+        d = d.replace(month=[1, 3, 5, 7, 8, 10, 12][d.month % 7], day=31)
+    elif how == 'dec31':
+        d = d.replace(month=12, day=31)
+    elif how == 'jan1':
+        d = d.replace(month=1, day=1)
+    return d.toordinal()
+
+
+def _raw(draw):
+    """class 13: the endpoints as datetime.date / numpy datetime64 (D, s, us, ns) / pd.Timestamp, the bump as numpy int64 / pd.Timedelta - in a quarter of the cases"""
+    if draw(st.integers(0, 3)):
+        return None
+    return [draw(st.sampled_from(_RAW_TAGS)), draw(st.sampled_from(_RAW_TAGS)), draw(st.sampled_from(['py', 'np']))]
+
+
+def _cal_opts(draw):
+    """class 17: the optional parameters of Calendar (holidays - offsets in days from t0 -, weekend, a short t0..t1 window - offsets too -, adj): none of them may touch a non-b drange"""
+    if draw(st.booleans()):
+        return None
+    return dict(hol=draw(st.lists(st.integers(-5, 40), max_size=4)), weekend=draw(st.sampled_from([None, [], [4, 5], [0, 1, 2, 3, 4, 5, 6]])),
+                lo=draw(st.sampled_from([None, 3, -400])), hi=draw(st.sampled_from([None, 10, 400])), adj=draw(st.sampled_from(['m', 'f', 'p'])))
+
+
 @st.composite
-def _case(draw):
-    kind = draw(st.sampled_from(['int', 'int', 'td_days', 'td_intraday', 'td_subsecond', 'd', 'w', 'b', 'b', 'month', 'month', 'hns', 'compound', 'compound', 'equal'] * 3 + ['long']))
+def _case(draw, session=False):
+    kind = draw(st.sampled_from(_KINDS if session else _KINDS * 3 + ['long']))
     o = draw(_ord)
     right = draw(st.sampled_from([True] * 7 + [False]))        # bump points towards t1?
     back = draw(st.booleans())                                     # t1 before t0?
@@ -140,11 +196,13 @@ def _case(draw):
         bump = {'int': bs, 'd': '%s1d' % ('-' if bs < 0 else ''), 'b': '%s1b' % ('-' if bs < 0 else ''), 'td': ['td', bs * 86400]}[b]
         spec.update(t0=[o, 0], span_s=sgn * n * 86400, bump=bump, route='drange')
         return spec
+    if kind in _BOUNDARY_KINDS:
+        o = _boundary_ordinal(draw, o)
     if kind == 'equal':
         spec.update(t0=[o, draw(st.sampled_from([0, 3600]))], span_s=0, bump=draw(st.sampled_from([1, -1, '1d', '-1b', '1m', ['td', 3600], '1m1d'])))
         spec['route'] = 'drange'
-        return spec
-    if kind == 'int':
+        spec['same_obj'] = draw(st.booleans())                    # class 14: drange(t, t, bump) with ONE object for both endpoints
+    elif kind == 'int':
         n = draw(st.integers(1, 10)) if draw(st.sampled_from([1] * 11 + [0])) else 0
         nel = draw(st.integers(0, 60)) + draw(st.sampled_from([0, 3]))
         span = max(1, nel * max(n, 1) + draw(st.integers(0, max(n - 1, 0))))
@@ -173,7 +231,7 @@ def _case(draw):
     elif kind == 'b':
         n = draw(st.integers(1, 7))
         span = draw(st.integers(1, 250))
-        spec.update(t0=[o, 0], span_s=sgn * span * 86400, bump='%s%ib' % ('-' if bs < 0 else draw(st.sampled_from(['', '', '+'])), n))
+        spec.update(t0=[o, draw(st.sampled_from([0, 0, 0, 7200]))], span_s=sgn * span * 86400, bump='%s%ib' % ('-' if bs < 0 else draw(st.sampled_from(['', '', '+'])), n))
         spec['route'] = 'drange'
     elif kind == 'month':
         unit = draw(st.sampled_from(['m', 'm', 'q', 'y']))
@@ -189,25 +247,37 @@ def _case(draw):
         span = max(1, nel * step + draw(st.integers(0, step - 1)))
         spec.update(t0=[o, draw(st.integers(0, 86399))], span_s=sgn * span, bump='%s%i%s' % ('-' if bs < 0 else '', n, unit))
     else:
-        form = draw(st.sampled_from(['md', 'ym', 'wd', 'dh', 'ymd', 'm-d', 'y-m', 'w-d']))
+        # the forms after 'w-d' put the SMALL part first (class 20: the order of the steps - a day shift before the step that reads the day of the month)
+        form = draw(st.sampled_from(['md', 'ym', 'wd', 'dh', 'ymd', 'm-d', 'y-m', 'w-d', 'dm', 'dm', 'my', 'hd', 'dw', '-dm', '-dm', '-dw']))
         a, b, c = draw(st.integers(1, 3)), draw(st.integers(1, 6)), draw(st.integers(1, 6))
         s = '-' if bs < 0 else ''
         o_s = '+' if bs < 0 else '-'
         tenor = {'md': '%s%im%s%id' % (s, a, s, b), 'ym': '%s%iy%s%im' % (s, a, s, b), 'wd': '%s%iw%s%id' % (s, a, s, b), 'dh': '%s%id%s%ih' % (s, a, s, b),
-                 'ymd': '%s%iy%s%im%s%id' % (s, a, s, b, s, c), 'm-d': '%s%im%s%id' % (s, a, o_s, b), 'y-m': '%s%iy%s%im' % (s, a, o_s, b), 'w-d': '%s%iw%s%id' % (s, a + 3, o_s, b)}[form]
-        if form in ('md', 'ym', 'ymd', 'm-d', 'y-m'):
+                 'ymd': '%s%iy%s%im%s%id' % (s, a, s, b, s, c), 'm-d': '%s%im%s%id' % (s, a, o_s, b), 'y-m': '%s%iy%s%im' % (s, a, o_s, b), 'w-d': '%s%iw%s%id' % (s, a + 3, o_s, b),
+                 'dm': '%s%id%s%im' % (s, b, s, a), 'my': '%s%im%s%iy' % (s, b, s, a), 'hd': '%s%ih%s%id' % (s, b, s, a), 'dw': '%s%id%s%iw' % (s, b, s, a),
+                 '-dm': '%s%id%s%im' % (o_s, b, s, a), '-dw': '%s%id%s%iw' % (o_s, b, s, a + 3)}[form]
+        if form in _MONTH_FORMS:
             o = _month_end_ordinal(draw, o)
             sec = 0
             span = draw(st.integers(1, 1100)) * 86400
-        elif form == 'dh':
+        elif form in ('dh', 'hd'):
             sec = draw(st.integers(0, 86399))
             span = draw(st.integers(1, 200 * 86400))
         else:
             sec = draw(st.sampled_from([0, 7200]))
             span = draw(st.integers(1, 400)) * 86400
-        spec.update(t0=[o, sec], span_s=sgn * span, bump=tenor)
+        spec.update(t0=[o, sec], span_s=sgn * span, bump=tenor, form=form)
+    raw = _raw(draw)
+    if raw:
+        spec['raw'] = raw
+    if spec['route'] == 'calendar':
+        cal = _cal_opts(draw)
+        if cal:
+            spec['cal'] = cal
     return spec
 
+
+# ----------------------------------------------------------------------------- building the arguments, expected value, verdict
 
 def _bump_obj(b):
     if isinstance(b, list):
@@ -215,69 +285,156 @@ def _bump_obj(b):
     return b
 
 
-def run_drange(spec):
-    from pyg_base import drange, Calendar
-    t0 = mkdt(*spec['t0'])
-    t1 = t0 + datetime.timedelta(milliseconds=round(spec['span_s'] * 1000))
-    bump = _bump_obj(spec['bump'])
-    kind = spec['kind']
-    # ---- expected
+def raw_instant(t, tag):
+    """the instant t (a datetime.datetime) in another raw type; a tag that cannot hold t (a date for 07:00) falls back to a finer one"""
+    if tag in (None, 'dt'):
+        return t
+    import numpy as np
+    import pandas as pd
+    midnight = (t.hour, t.minute, t.second, t.microsecond) == (0, 0, 0, 0)
+    if tag == 'date':
+        return datetime.date(t.year, t.month, t.day) if midnight else pd.Timestamp(t)
+    if tag == 'np_D' and midnight:
+        return np.datetime64(t.date(), 'D')
+    if tag == 'np_s' and t.microsecond == 0:
+        return np.datetime64(t, 's')
+    if tag in ('np_D', 'np_s', 'np_us'):
+        return np.datetime64(t, 'us')
+    if tag == 'np_ns':
+        return np.datetime64(t, 'ns')
+    assert tag == 'ts', tag
+    return pd.Timestamp(t)
+
+
+def raw_bump(b, tag):
+    """the bump in another raw type: numpy int64 for an int, pd.Timedelta for a timedelta (period strings have one type only)"""
+    if tag != 'np' or isinstance(b, str):
+        return b
+    if isinstance(b, int):
+        import numpy as np
+        return np.int64(b)
+    import pandas as pd
+    return pd.Timedelta(b)
+
+
+def make_calendar(opts, t0):
+    from pyg_base import Calendar
+    if not opts:
+        return Calendar('pv')
+    d0 = datetime.datetime(t0.year, t0.month, t0.day)
+    kw = dict(holidays=[d0 + k * DAY for k in opts['hol']], adj=opts['adj'])
+    if opts['weekend'] is not None:
+        kw['weekend'] = list(opts['weekend'])
+    if opts['lo'] is not None:
+        kw['t0'] = d0 + opts['lo'] * DAY
+    if opts['hi'] is not None:
+        kw['t1'] = d0 + opts['hi'] * DAY
+    return Calendar('pv', **kw)
+
+
+def expected(t0, t1, bump):
+    """the list the statement describes (None = ValueError) for plain datetimes t0, t1 and a python int / timedelta / period string"""
     if isinstance(bump, str) and bump.lower().endswith('b') and len(ref_parts(bump)) == 1:
         k = ref_parts(bump)[0][0]
         if t0 == t1:
-            exp = [t0]
-        elif (t1 > t0) != (k > 0):
-            exp = None
-        else:
-            exp = ref_weekdays(t0, t1, k)
-    elif isinstance(bump, str):
+            return [t0]
+        if (t1 > t0) != (k > 0):
+            return None
+        return ref_weekdays(t0, t1, k)
+    if isinstance(bump, str):
         parts = ref_parts(bump)
-        exp = ref_iterate(t0, t1, lambda t: ref_step(t, parts))
-    elif isinstance(bump, int):
-        exp = ref_iterate(t0, t1, lambda t: t + bump * DAY)
-    else:
-        exp = ref_iterate(t0, t1, lambda t: t + bump)
-    limit = 60000 + 400 * (len(exp) if exp else 0) + (3000 * int(abs(spec['span_s'])) // 86400 if kind == 'b' or isinstance(bump, int) else 0)
-    what = 'drange(%s, %s, %r)' % (t0, t1, bump)
-    f = drange if spec['route'] == 'drange' else Calendar('pv').drange
-    if spec['route'] != 'drange':
-        what = 'Calendar.' + what
+        return ref_iterate(t0, t1, lambda t: ref_step(t, parts))
+    if isinstance(bump, int):
+        return ref_iterate(t0, t1, lambda t: t + bump * DAY)
+    return ref_iterate(t0, t1, lambda t: t + bump)
 
-    def run(b):
-        try:
-            with __import__('pv.core', fromlist=['fuel']).fuel(limit):
-                return ('ok', f(t0, t1, b))
-        except ValueError as e:
-            return ('ValueError', str(e))
-        except OutOfFuel:
-            raise Violation('%s did not terminate within %i calls (expected %s)' % (what, limit, 'ValueError' if exp is None else '%i elements' % len(exp)))
-        except Violation:
-            raise
-        except Exception as e:
-            raise Violation('%s raised %s: %s' % (what, type(e).__name__, str(e)[:200]))
-    status, res = run(bump)
+
+def fuel_limit(exp, bump, span_ms):
+    daily = isinstance(bump, int) or (isinstance(bump, str) and bump.lower().endswith('b'))
+    return 60000 + 400 * (len(exp) if exp else 0) + (3000 * (abs(span_ms) // 86400000) if daily else 0)
+
+
+def invoke(what, f, a0, a1, b, limit, exp):
+    from pv.core import fuel
+    try:
+        with fuel(limit):
+            return ('ok', f(a0, a1, b))
+    except ValueError as e:
+        return ('ValueError', str(e))
+    except OutOfFuel:
+        raise Violation('%s did not terminate within %i calls (expected %s)' % (what, limit, 'ValueError' if exp is None else '%i elements' % len(exp)))
+    except Violation:
+        raise
+    except Exception as e:
+        raise Violation('%s raised %s: %s' % (what, type(e).__name__, str(e)[:200]))
+
+
+def judge(what, status, res, exp, t0, t1):
+    """the outcome of one call against the single-call oracle; returns the list (or None for the ValueError case)"""
     if exp is None:
         check(status == 'ValueError', '%s: the bump points away from t1 (or is zero), expected ValueError but got %s', what, res)
-    else:
-        check(status == 'ok', '%s raised ValueError(%s) but the reference list has %s elements starting %s', what, res, len(exp), exp[:3])
-        check(isinstance(res, list), '%s returned %s', what, type(res).__name__)
-        res = list(res)
-        check(all(isinstance(t, datetime.datetime) for t in res), '%s returned non-datetimes: %s', what, res[:3])
-        if res != exp:
-            raise Violation('%s returned %i elements %s ... %s; the reference iteration gives %i elements %s ... %s'
-                            % (what, len(res), short(res[:3], 120), short(res[-2:], 80), len(exp), short(exp[:3], 120), short(exp[-2:], 80)))
-        # validity restated from the statement (redundant with equality, kept as a readable second oracle)
-        fwd = t1 >= t0
-        check(all((a < b) if fwd else (a > b) for a, b in zip(res[:-1], res[1:])), '%s is not strictly monotone', what)
-        check(all(min(t0, t1) <= t <= max(t0, t1) for t in res), '%s leaves the span', what)
+        return None
+    check(status == 'ok', '%s raised ValueError(%s) but the reference list has %s elements starting %s', what, res, len(exp), exp[:3])
+    check(isinstance(res, list), '%s returned %s', what, type(res).__name__)
+    got = list(res)
+    check(all(isinstance(t, datetime.datetime) for t in got), '%s returned non-datetimes: %s', what, got[:3])
+    if got != exp:
+        raise Violation('%s returned %i elements %s ... %s; the reference iteration gives %i elements %s ... %s'
+                        % (what, len(got), short(got[:3], 120), short(got[-2:], 80), len(exp), short(exp[:3], 120), short(exp[-2:], 80)))
+    # validity restated from the statement (redundant with equality, kept as a readable second oracle)
+    fwd = t1 >= t0
+    check(all((a < b) if fwd else (a > b) for a, b in zip(got[:-1], got[1:])), '%s is not strictly monotone', what)
+    check(all(min(t0, t1) <= t <= max(t0, t1) for t in got), '%s leaves the span', what)
+    return got
+
+
+def _what(route, a0, a1, b):
+    return '%sdrange(%r, %r, %r)' % ('' if route == 'drange' else 'Calendar.', a0, a1, b)
+
+
+def _is_nt(kind, back, bump, exp):
+    n = len(exp) if exp else 0
+    return exp is None or (n >= 3 and (back or kind in ('compound', 'td_intraday', 'td_subsecond', 'hns') or (isinstance(bump, int) and abs(bump) > 1) or kind in ('b', 'month')))
+
+
+def _type_classes(a0, a1, b):
+    cls = []
+    if type(a0) is not datetime.datetime or type(a1) is not datetime.datetime:
+        cls.append('raw_endpoint_type')
+        for a in (a0, a1):
+            if type(a) is not datetime.datetime and 'raw_endpoint=' + type(a).__name__ not in cls:
+                cls.append('raw_endpoint=' + type(a).__name__)
+        if type(a0) is not type(a1):
+            cls.append('raw_endpoints_of_two_types')
+    if not isinstance(b, str) and type(b) not in (int, datetime.timedelta):
+        cls.append('raw_bump_type')
+        cls.append('raw_bump=' + type(b).__name__)
+    return cls
+
+
+def run_drange(spec):
+    from pyg_base import drange
+    t0 = mkdt(*spec['t0'])
+    span_ms = round(spec['span_s'] * 1000)
+    t1 = t0 + datetime.timedelta(milliseconds=span_ms)
+    bump = _bump_obj(spec['bump'])
+    kind = spec['kind']
+    raw = spec.get('raw') or ['dt', 'dt', 'py']
+    a0 = raw_instant(t0, raw[0])
+    a1 = a0 if spec.get('same_obj') else raw_instant(t1, raw[1])
+    b = raw_bump(bump, raw[2])
+    exp = expected(t0, t1, bump)
+    limit = fuel_limit(exp, bump, span_ms)
+    f = drange if spec['route'] == 'drange' else make_calendar(spec.get('cal'), t0).drange
+    what = _what(spec['route'], a0, a1, b)
+    status, res = invoke(what, f, a0, a1, b, limit, exp)
+    res = judge(what, status, res, exp, t0, t1)
     # ---- int / timedelta / 'nd' agree
     if kind == 'int' and spec.get('also') and bump != 0:
         other = datetime.timedelta(bump) if spec['also'] == 'td' else '%id' % bump
-        s2, r2 = run(other)
+        s2, r2 = invoke(_what(spec['route'], a0, a1, other), f, a0, a1, other, limit, exp)
         check((s2, r2 if s2 == 'ok' else None) == (status, res if status == 'ok' else None), '%s and the same call with %r disagree: %s vs %s', what, other, short(res, 150), short(r2, 150))
     n = len(exp) if exp else 0
-    if n >= 1000:
-        pass
     cls = ['kind=' + kind, 'route=' + spec['route'], 'wrong_direction_or_zero' if exp is None else 'n=%s' % ('0' if n == 0 else '1-2' if n < 3 else '3+')]
     if spec['back']:
         cls.append('t1<t0')
@@ -291,15 +448,163 @@ def run_drange(spec):
             cls.append('from_28_feb_non_leap')
     if exp is not None and spec['back'] and n >= 3:
         cls.append('negative_direction_3+')
-    nt = exp is None or (n >= 3 and (spec['back'] or kind in ('compound', 'td_intraday', 'td_subsecond', 'hns') or (isinstance(spec['bump'], int) and abs(spec['bump']) > 1) or kind in ('b', 'month')))
-    return dict(nt=bool(nt), cls=cls)
+    # ---- classes of the generalisation pass (bug classes 13, 14, 17, 19, 20)
+    cls += _type_classes(a0, a1, b)
+    if a0 is a1:
+        cls.append('one_object_for_both_endpoints')
+    if spec.get('cal'):
+        cls.append('calendar_with_options')
+        if spec['cal']['lo'] is not None or spec['cal']['hi'] is not None:
+            cls.append('calendar_with_short_window')
+    if kind in _BOUNDARY_KINDS:
+        md = (t0.month, t0.day)
+        on = 'start_29_feb' if md == (2, 29) else 'start_28_feb' if md == (2, 28) else 'start_30_31' if t0.day >= 30 and md != (12, 31) else 'start_31_dec_1_jan' if md in ((12, 31), (1, 1)) else None
+        if on:
+            cls += ['start_on_month_or_year_boundary', on]
+            if n >= 3:
+                cls.append('start_on_month_or_year_boundary_3+')
+    if kind == 'b' and spec['t0'][1]:
+        cls.append('b_from_a_time_of_day')
+    if kind == 'compound' and spec.get('form') in _SMALL_FIRST:
+        cls.append('compound_small_part_first')
+        if n >= 3:
+            cls.append('compound_small_part_first_3+')
+    return dict(nt=bool(_is_nt(kind, spec['back'], spec['bump'], exp)), cls=cls)
 
+
+# ----------------------------------------------------------------------------- sessions (class 11): several calls on the same endpoint objects
+
+_OPS = ['same', 'same', 'extend', 'shorten', 'reverse', 'reverse', 'negate', 'other']
+
+
+def _neg_bump(b):
+    if isinstance(b, list):
+        return [b[0], -b[1]]
+    if isinstance(b, int):
+        return -b
+    return ''.join(('' if sign == '-' else '-') + num + unit for sign, num, unit in _TOKEN_I.findall(b))
+
+
+def _other_bump(b):
+    """another bump of the same type and sign (a longer stride)"""
+    if isinstance(b, list):
+        return [b[0], b[1] * 2 if b[1] else 1000]
+    if isinstance(b, int):
+        return b + (1 if b >= 0 else -1)
+    toks = _TOKEN_I.findall(b)
+    sign, num, unit = toks[0]
+    return ''.join([sign + str(int(num) + 1) + unit] + [s_ + n_ + u_ for s_, n_, u_ in toks[1:]])
+
+
+def _month_parts(b):
+    return isinstance(b, str) and any(u.lower() in 'mqy' for _, _, u in _TOKEN_I.findall(b))
+
+
+def session_apply(state, op, t0):
+    """the next call of a session: state = (offset of the start from the first start, span, bump), both in milliseconds. An op that would leave the
+    domain of the statement (a month-based bump from a day of the month after the 28th) is replaced by 'same'"""
+    off, span, bump = state
+    if op == 'extend':
+        return (off, span * 2, bump)
+    if op == 'shorten':
+        days, rem = divmod(abs(span), 86400000)
+        return (off, (1 if span >= 0 else -1) * ((days // 2) * 86400000 + rem), bump) if days >= 2 else state
+    if op == 'reverse':
+        start = t0 + datetime.timedelta(milliseconds=off + span)
+        if _month_parts(bump) and start.day > 28:
+            return state
+        return (off + span, -span, _neg_bump(bump))
+    if op == 'negate':
+        return (off, span, _neg_bump(bump))
+    if op == 'other':
+        return (off, span, _other_bump(bump))
+    assert op == 'same', op
+    return state
+
+
+@st.composite
+def _session_case(draw):
+    base = draw(_case(session=True))
+    base.pop('also', None)
+    ops = draw(st.lists(st.sampled_from(_OPS), min_size=1, max_size=3))
+    return dict(base=base, ops=ops)
+
+
+def run_session(spec):
+    """2-4 calls that share their endpoint and bump OBJECTS (one object per instant / per bump for the whole session, one Calendar object), every call
+    judged by the single-call oracle; each returned list is emptied by the caller before the next call (a callee that hands out its memo is then seen)"""
+    from pyg_base import drange
+    base = spec['base']
+    t_first = mkdt(*base['t0'])
+    raw = base.get('raw') or ['dt', 'dt', 'py']
+    f = drange if base['route'] == 'drange' else make_calendar(base.get('cal'), t_first).drange
+    instants, bumps = {}, {}
+
+    def instant(off):
+        if off not in instants:
+            instants[off] = raw_instant(t_first + datetime.timedelta(milliseconds=off), raw[0] if off == 0 else raw[1])
+        return instants[off]
+
+    def bump_of(bs):
+        key = json.dumps(bs)
+        if key not in bumps:
+            bumps[key] = raw_bump(_bump_obj(bs), raw[2])
+        return bumps[key]
+    state = (0, round(base['span_s'] * 1000), base['bump'])
+    nt, cls, done = False, ['session', 'kind=' + base['kind'], 'route=' + base['route']], []
+    for i, op in enumerate([None] + list(spec['ops'])):
+        if op is not None:
+            new = session_apply(state, op, t_first)
+            cls.append('op=' + (op if new != state or op == 'same' else 'same'))
+            state = new
+        off, span, bs = state
+        t0 = t_first + datetime.timedelta(milliseconds=off)
+        t1 = t0 + datetime.timedelta(milliseconds=span)
+        a0, a1, b = instant(off), instant(off + span), bump_of(bs)      # span 0: ONE object for both endpoints
+        bump = _bump_obj(bs)
+        exp = expected(t0, t1, bump)
+        what = 'call %i of the session %s: %s' % (i + 1, done, _what(base['route'], a0, a1, b))
+        status, res = invoke(what, f, a0, a1, b, fuel_limit(exp, bump, span), exp)
+        got = judge(what, status, res, exp, t0, t1)
+        if status == 'ok' and isinstance(res, list):
+            del res[:]                           # the caller owns the list it was given
+        done.append(_what(base['route'], a0, a1, b))
+        nt = nt or _is_nt(base['kind'], span < 0, bs, exp)
+        cls += _type_classes(a0, a1, b)
+        if op is not None and exp is not None and len(exp) >= 3:
+            cls.append('later_call_3+')
+        if op is not None and exp is None:
+            cls.append('later_call_wrong_direction')
+    cls.append('calls=%i' % (1 + len(spec['ops'])))
+    if base.get('cal'):
+        cls.append('calendar_with_options')
+    return dict(nt=bool(nt), cls=sorted(set(cls)))
+
+
+# class floors: the seven of the first rounds, then (generalisation pass) about a third of the rate seen over seeds 1-3
+DRANGE_FLOORS = {
+    'endpoints_not_whole_days_apart': 0.08, 'endpoints_less_than_a_day_apart': 0.004, 'from_28_feb_non_leap': 0.02, 'wrong_direction_or_zero': 0.1, 'negative_direction_3+': 0.1, 'kind=compound': 0.05, 'kind=b': 0.05,
+    'raw_endpoint_type': 0.06, 'raw_endpoints_of_two_types': 0.018, 'raw_endpoint=date': 0.009, 'raw_endpoint=datetime64': 0.045, 'raw_endpoint=Timestamp': 0.017, 'raw_bump_type': 0.013, 'raw_bump=int64': 0.005, 'raw_bump=Timedelta': 0.007,
+    'one_object_for_both_endpoints': 0.005, 'calendar_with_options': 0.025, 'calendar_with_short_window': 0.019,
+    'start_on_month_or_year_boundary': 0.13, 'start_on_month_or_year_boundary_3+': 0.07, 'start_29_feb': 0.013, 'start_28_feb': 0.012, 'start_30_31': 0.03, 'start_31_dec_1_jan': 0.06,
+    'b_from_a_time_of_day': 0.011, 'compound_small_part_first': 0.025, 'compound_small_part_first_3+': 0.009,
+}
+SESSION_FLOORS = {
+    'op=same': 0.17, 'op=extend': 0.045, 'op=shorten': 0.035, 'op=reverse': 0.09, 'op=negate': 0.04, 'op=other': 0.045, 'later_call_3+': 0.15, 'later_call_wrong_direction': 0.09,
+    'calls=3': 0.06, 'calls=4': 0.1, 'raw_endpoint_type': 0.08, 'raw_bump_type': 0.01, 'calendar_with_options': 0.03, 'kind=b': 0.045, 'kind=compound': 0.045, 'kind=month': 0.04, 'kind=equal': 0.014,
+}
 
 SUBS = [
     Sub('drange', lambda tier: _case(), run_drange, quick=8000, thorough=40000,
         rule='t0 in 1950-2050 at second resolution, span 0..~3 years either way, bumps: ints (+-, 0), timedeltas (days / intraday, +-, 0), single period strings for every unit '
              '(d w b m q y h n s, +-, 0, both cases), compound strings; right and wrong direction; module drange and Calendar.drange. Oracle: reference iteration with '
-             'datetime arithmetic (weekday walk for b), ValueError for wrong-direction/zero, int == timedelta == "nd", fuel-bounded termination. '
+             'datetime arithmetic (weekday walk for b), ValueError for wrong-direction/zero, int == timedelta == "nd", fuel-bounded termination. In a quarter of the cases the endpoints are date / datetime64 / Timestamp '
+             'objects and the bump a numpy int64 / pd.Timedelta; Calendar.drange also on calendars with holidays, weekend, window and adj; starts on month / year boundaries; compound tenors in both part orders. '
              'non-trivial = >= 3 elements with negative direction / stride > 1 / compound / intraday / b / month, or a wrong-direction case',
-        floor=0.3, class_floors={'endpoints_not_whole_days_apart': 0.08, 'endpoints_less_than_a_day_apart': 0.004, 'from_28_feb_non_leap': 0.02, 'wrong_direction_or_zero': 0.1, 'negative_direction_3+': 0.1, 'kind=compound': 0.05, 'kind=b': 0.05}),
+        floor=0.3, class_floors=DRANGE_FLOORS),
+    Sub('session', lambda tier: _session_case(), run_session, quick=2500, thorough=12000,
+        rule='2-4 calls on the same endpoint / bump / Calendar objects: the same call again, t1 twice as far / half as far, the endpoints swapped with the bump negated, the bump '
+             'negated or lengthened on the same endpoints; every call judged by the single-call oracle, every returned list emptied by the caller before the next call. '
+             'non-trivial = some call of the session is non-trivial by the rule of `drange`',
+        floor=0.3, class_floors=SESSION_FLOORS),
 ]
